@@ -17,14 +17,15 @@ MCV_Steps == {1}
 \* histories: time passing between calls, a small set of arguments that share or nearly
 \* share cache keys
 MCH_RRV   == {"genuine", "rdataBit", "rdataNameCase", "addOtherClass", "addForgedTwice"}
-MCH_SIGV  == {"genuine", "exp", "forged", "twoSigs", "swapSigs"}
+MCH_SIGV  == {"genuine", "exp", "forged", "twoSigs", "swapSigs", "junkSignerFirst", "junkSignerLast"}
 MCH_KEYV  == {"genuine", "otherKey", "childKey", "revokedAnchor"}
 G(t)      == [rr |-> "genuine", sig |-> "genuine", key |-> "genuine", rttl |-> t]
 MCH_Args  == {G(1), G(4), G(9), [G(4) EXCEPT !.rr = "rdataNameCase"], [G(4) EXCEPT !.rr = "rdataBit"],
               [G(9) EXCEPT !.sig = "exp"], [G(4) EXCEPT !.key = "otherKey"], [G(9) EXCEPT !.rr = "addOtherClass"],
               [G(4) EXCEPT !.sig = "forged", !.key = "childKey"], [G(4) EXCEPT !.rr = "addForgedTwice"],
               [G(4) EXCEPT !.sig = "twoSigs"], [G(4) EXCEPT !.sig = "swapSigs"],
-              [G(4) EXCEPT !.sig = "forged", !.key = "revokedAnchor"]}
+              [G(4) EXCEPT !.sig = "forged", !.key = "revokedAnchor"],
+              [G(4) EXCEPT !.sig = "junkSignerFirst"], [G(9) EXCEPT !.sig = "junkSignerLast"]}
 MCH_Starts == {29, 30, 1, 5, 6}
 MCH_Steps == {1, 3, 8}
 \* three calls
